@@ -170,6 +170,8 @@ pub fn err_class(e: &str) -> String {
         "badflags".into()
     } else if t.contains("no such key") {
         "nosuchkey".into()
+    } else if t.contains("hash value is not an integer") {
+        "hashnotint".into()
     } else if t.contains("index out of range") {
         "indexrange".into()
     } else if t.contains("exceeds maximum allowed size") {
@@ -392,6 +394,63 @@ pub fn enc_cmd(cmd: &Command, reply: &RespValue) -> Option<String> {
             }
             s
         }
+        Command::SAdd(k, ms) | Command::SRem(k, ms) => {
+            if ms.is_empty() {
+                return None;
+            }
+            let mut s = format!("{} {} {}", if matches!(cmd, Command::SAdd(..)) { "SADD" } else { "SREM" }, hk(k), ms.len());
+            for m in ms {
+                s.push(' ');
+                s.push_str(&hv(m));
+            }
+            s
+        }
+        Command::SMembers(k) => format!("SMEMBERS {}", hk(k)),
+        Command::SIsMember(k, m) => format!("SISMEMBER {} {}", hk(k), hv(m)),
+        Command::SCard(k) => format!("SCARD {}", hk(k)),
+        Command::SPop(k, count) => {
+            // a relation: the op carries the members the implementation chose (sorted)
+            let mut chosen: Vec<Vec<u8>> = match reply {
+                RespValue::BulkString(Some(b)) => vec![b.clone()],
+                RespValue::Array(Some(v)) => v.iter().map(bulk_bytes).collect(),
+                _ => vec![],
+            };
+            chosen.sort_by(|a, b| bcmp(a, b));
+            let mut s = format!("SPOP {} {} {}", hk(k), count.map(|c| c.to_string()).unwrap_or("-".into()), chosen.len());
+            for c in chosen {
+                s.push(' ');
+                s.push_str(&hex(&c));
+            }
+            s
+        }
+        Command::HSet(k, fvs) => {
+            if fvs.is_empty() {
+                return None;
+            }
+            let mut s = format!("HSET {} {}", hk(k), fvs.len());
+            for (f, v) in fvs {
+                s.push_str(&format!(" {} {}", hv(f), hv(v)));
+            }
+            s
+        }
+        Command::HGet(k, f) => format!("HGET {} {}", hk(k), hv(f)),
+        Command::HDel(k, fs) => {
+            if fs.is_empty() {
+                return None;
+            }
+            let mut s = format!("HDEL {} {}", hk(k), fs.len());
+            for f in fs {
+                s.push(' ');
+                s.push_str(&hv(f));
+            }
+            s
+        }
+        Command::HGetAll(k) => format!("HGETALL {}", hk(k)),
+        Command::HKeys(k) => format!("HKEYS {}", hk(k)),
+        Command::HVals(k) => format!("HVALS {}", hk(k)),
+        Command::HLen(k) => format!("HLEN {}", hk(k)),
+        Command::HExists(k, f) => format!("HEXISTS {} {}", hk(k), hv(f)),
+        Command::HIncrBy(k, f, d) => format!("HINCRBY {} {} {}", hk(k), hv(f), d),
         Command::LPop(k) => format!("LPOP {}", hk(k)),
         Command::RPop(k) => format!("RPOP {}", hk(k)),
         Command::LLen(k) => format!("LLEN {}", hk(k)),
@@ -613,6 +672,43 @@ pub fn gen_list_cmd(rng: &mut Rng) -> Command {
     }
 }
 
+/// set member / hash field: mostly from a small alphabet (so that they collide), sometimes any payload
+pub fn member(rng: &mut Rng) -> SDS {
+    if rng.chance(3, 4) {
+        SDS::new(rng.pick(&["a", "b", "c", "10", "é", ""]).as_bytes().to_vec())
+    } else {
+        payload(rng)
+    }
+}
+
+pub fn gen_set_cmd(rng: &mut Rng) -> Command {
+    let k = key(rng);
+    match rng.below(16) {
+        0..=4 => Command::SAdd(k, (0..rng.range(1, 4)).map(|_| member(rng)).collect()),
+        5..=7 => Command::SRem(k, (0..rng.range(1, 3)).map(|_| member(rng)).collect()),
+        8 | 9 => Command::SMembers(k),
+        10 | 11 => Command::SIsMember(k, member(rng)),
+        12 => Command::SCard(k),
+        13 => Command::SPop(k, None),
+        _ => Command::SPop(k, Some(*rng.pick(&[0usize, 1, 1, 2, 3, 100]))),
+    }
+}
+
+pub fn gen_hash_cmd(rng: &mut Rng) -> Command {
+    let k = key(rng);
+    match rng.below(20) {
+        0..=4 => Command::HSet(k, (0..rng.range(1, 3)).map(|_| (member(rng), payload(rng))).collect()),
+        5 | 6 => Command::HGet(k, member(rng)),
+        7..=9 => Command::HDel(k, (0..rng.range(1, 3)).map(|_| member(rng)).collect()),
+        10 | 11 => Command::HGetAll(k),
+        12 => Command::HKeys(k),
+        13 => Command::HVals(k),
+        14 => Command::HLen(k),
+        15 => Command::HExists(k, member(rng)),
+        _ => Command::HIncrBy(k, member(rng), *rng.pick(&[1i64, -1, 5, 10, i64::MAX, i64::MIN, 0])),
+    }
+}
+
 /// commands of families that are not modelled (yet): they only build states of other types
 pub fn gen_other_type_cmd(rng: &mut Rng) -> Command {
     let k = key(rng);
@@ -625,12 +721,14 @@ pub fn gen_other_type_cmd(rng: &mut Rng) -> Command {
 }
 
 pub fn gen_cmd(rng: &mut Rng, now: u64) -> Command {
-    match rng.below(26) {
+    match rng.below(36) {
         0..=5 => gen_string_cmd(rng, now),
         6..=7 => gen_counter_cmd(rng),
         8..=11 => gen_key_cmd(rng),
         12..=16 => gen_expiry_cmd(rng, now),
-        17..=23 => gen_list_cmd(rng),
+        17..=22 => gen_list_cmd(rng),
+        23..=27 => gen_set_cmd(rng),
+        28..=33 => gen_hash_cmd(rng),
         _ => gen_other_type_cmd(rng),
     }
 }
